@@ -21,7 +21,7 @@ LEVEL_TEXT = ("Theorems over Runner.v + Formatters.v: the formatter events of ev
               "features bracketed by uri/eof, rules, scenarios announcing their steps before reporting them, results naming the announced "
               "steps in order, exactly one close at the end).  The folds are compared with the real JSONFormatter / PlainFormatter on "
               "real runs; the oracle checks protocol grammar, agreement between formatter positions, JSON vs model, read-back, progress counts.")
-LEVEL_NOTE = "Trusted: Coq kernel, renderer, text decoders, stdlib json. The whole-run grammar is a theorem and is also checked by the oracle on real streams."
+LEVEL_NOTE = "Trusted: Coq kernel, renderer, text decoders, stdlib json. Tables and doc-strings in the JSON document and its read-back are checked by the oracle on real runs (suite tables_and_docstrings); the Coq fold models steps, matches, results and statuses. The whole-run grammar is a theorem and is also checked by the oracle on real streams."
 
 
 def impl_formatters(case):
@@ -306,8 +306,154 @@ def enc(case, obs):
     return rc.c_program(case["prog"]), "(Some %s, Some %s)" % (clist(docs, "list jelem"), plain)
 
 
+# ------------------------------------------------------------------ JSON: tables and doc-strings, and the read-back
+def render_rich(case):
+    lines = ["Feature: F"]
+    if case.get("bg"):
+        lines.append("  Background: B")
+        lines += step_lines(case["bg"], "    ")
+    for si, sc in enumerate(case["scenarios"]):
+        if sc.get("outline"):
+            lines.append("  Scenario Outline: O%d <c>" % si)
+            lines += step_lines(sc["steps"], "    ")
+            lines.append("    Examples: E")
+            lines.append("      | c |")
+            lines += ["      | %s |" % v for v in sc["outline"]]
+        else:
+            lines.append("  Scenario: S%d" % si)
+            lines += step_lines(sc["steps"], "    ")
+    return "\n".join(lines) + "\n"
+
+
+def step_lines(steps, ind):
+    out = []
+    for i, st in enumerate(steps):
+        out.append("%s%s it %s %d" % (ind, "Given" if i == 0 else "And", st["kind"], st["id"]))
+        if st.get("doc") is not None:
+            out.append(ind + '  """')
+            out += [ind + "  " + l for l in st["doc"]]
+            out.append(ind + '  """')
+        if st.get("table") is not None:
+            out.append(ind + "  | " + " | ".join(st["table"][0]) + " |")
+            out += [ind + "  | " + " | ".join(r) + " |" for r in st["table"][1]]
+    return out
+
+
+def impl_rich(case):
+    import contextlib
+    from behave.configuration import Configuration
+    from behave.runner import ModelRunner
+    from behave.step_registry import StepRegistry
+    from behave.parser import parse_feature
+    from behave.formatter.base import StreamOpener
+    from behave.formatter.json import JSONFormatter
+    from behave.json_parser import JsonParser
+    registry = StepRegistry()
+
+    def impl(context, kind, n):
+        if kind == "fail":
+            assert False, "no"
+        if kind == "error":
+            raise RuntimeError("boom")
+    registry.add_step_definition("step", "it {kind} {n:d}", impl)
+    feature = parse_feature(render_rich(case), filename="r.feature")
+    config = Configuration(["--no-color"], load_config=False)
+    config.reporters = []
+    runner = ModelRunner(config, [feature], step_registry=registry)
+    stream = io.StringIO()
+    runner.formatters = [JSONFormatter(StreamOpener(stream=stream), config)]
+    with contextlib.redirect_stdout(io.StringIO()):
+        runner.run()
+
+    def describe(sc):
+        return {"name": sc.name, "status": sc.status.name,
+                "steps": [{"name": st.name, "status": st.status.name, "text": st.text if st.text is None else str(st.text),
+                           "table": [list(st.table.headings), [list(r.cells) for r in st.table.rows]] if st.table is not None else None}
+                          for st in sc.steps]}
+    model = [describe(sc) for sc in feature.walk_scenarios()]
+    obs = {"model": model, "text": stream.getvalue()}
+    try:
+        data = json.loads(stream.getvalue())
+        back = JsonParser().parse_features(data)
+        obs["readback"] = [describe(sc) for f in back for sc in f.walk_scenarios()]
+    except Exception as e:      # noqa
+        obs["readback"] = {"EXC": "%s: %s" % (type(e).__name__, e)}
+    return obs
+
+
+def oracle_rich(case, obs):
+    out = []
+    try:
+        data = json.loads(obs["text"])
+    except ValueError as e:
+        return [("JSON report is not valid JSON: %s" % e, "json-invalid")]
+    els = [el for d in data for el in d.get("elements", []) if el["type"] != "background"]
+    if [el["name"] for el in els] != [m["name"] for m in obs["model"]]:
+        out.append(("JSON scenarios %s, model %s" % ([el["name"] for el in els], [m["name"] for m in obs["model"]]), "json-structure"))
+        return out
+    for el, m in zip(els, obs["model"]):
+        own = m["steps"]
+        js = el["steps"][-len(own):] if own else []
+        for s, ms in zip(js, own):
+            jt = [s["table"]["headings"], s["table"]["rows"]] if "table" in s else None
+            jx = s["text"] if "text" in s else None
+            if isinstance(jx, list):
+                jx = "\n".join(jx)
+            if s["name"] != ms["name"] or jt != ms["table"] or (jx or None) != (ms["text"] or None):
+                out.append(("JSON step %r of %s carries table %r / text %r, the model has %r / %r" % (
+                    s["name"], el["name"], jt, jx, ms["table"], ms["text"]), "json-step-table-or-text"))
+    rb = obs["readback"]
+    if isinstance(rb, dict):
+        out.append(("reading the JSON report back raised %s" % rb["EXC"], "json-readback-exception"))
+    else:
+        want = [{"name": m["name"], "status": m["status"],
+                 "steps": [dict(st, status=st["status"]) for st in m["steps"]]} for m in obs["model"]]
+        for r, m in zip(rb, want):
+            rsteps = r["steps"][-len(m["steps"]):] if m["steps"] else []
+            for rs, ms in zip(rsteps, m["steps"]):
+                if rs["name"] != ms["name"] or rs["table"] != ms["table"] or (rs["text"] or None) != (ms["text"] or None):
+                    out.append(("read-back step %r of %s has table %r / text %r, the model has %r / %r" % (
+                        rs["name"], r["name"], rs["table"], rs["text"], ms["table"], ms["text"]), "json-readback-table-or-text"))
+                    break
+            if r["name"] != m["name"] or r["status"] != m["status"]:
+                out.append(("read-back scenario %s status %s, model %s %s" % (r["name"], r["status"], m["name"], m["status"]), "json-readback"))
+        if len(rb) != len(want):
+            out.append(("read-back has %d scenarios, the model %d" % (len(rb), len(want)), "json-readback"))
+    return out
+
+
+def gen_rich(rnd):
+    sid = iter(range(1, 1000))
+
+    def step():
+        st = {"kind": rnd.choice(["pass", "pass", "pass", "fail", "error"]), "id": next(sid)}
+        r = rnd.random()
+        if r < 0.3 or r > 0.9:
+            st["doc"] = [rnd.choice(["hello", "two words", "  indented", "x <c> y", "Ünï"]) for _ in range(rnd.randint(1, 3))]
+        if 0.3 <= r < 0.6 or r > 0.9:
+            w = rnd.randint(1, 3)
+            st["table"] = [["h%d" % i for i in range(w)],
+                           [[rnd.choice(["1", "a b", "<c>", "ü", "x"]) for _ in range(w)] for _ in range(rnd.randint(0, 3))]]
+        return st
+    scens = []
+    for _ in range(rnd.randint(1, 3)):
+        sc = {"steps": [step() for _ in range(rnd.randint(1, 3))]}
+        if rnd.random() < 0.3:
+            sc["outline"] = [rnd.choice(["v1", "v2", "7"]) for _ in range(rnd.randint(1, 2))]
+        scens.append(sc)
+    case = {"scenarios": scens}
+    if rnd.random() < 0.3:
+        case["bg"] = [step()]
+    return case
+
+
 def suites(tier, seed):
     rnd = random.Random(seed * 7127 + 15)
+    rich = [gen_rich(rnd) for _ in range(600 if tier == "thorough" else 120)]
+    rich_suite = {"name": "tables_and_docstrings", "cases": rich, "impl": impl_rich, "oracle": oracle_rich,
+                  "nontrivial": lambda c, o: any(st.get("table") or st.get("doc") for sc in c["scenarios"] for st in sc["steps"]),
+                  "bound": "%d runs of features whose steps carry tables and doc-strings (scenarios, outlines, background): JSON "
+                           "document vs model, and the JsonParser read-back" % len(rich)}
     n = 3500 if tier == "thorough" else 650
     cases = []
     fmts = ["json", "plain", "progress", "progress2", "progress3"]
@@ -323,7 +469,7 @@ def suites(tier, seed):
                 if must not in order:
                     order.append(must)
         cases.append({"prog": p, "order": order, "multiline": rnd.random() < 0.5})
-    return [{"name": "reports", "cases": cases, "impl": impl_formatters, "oracle": oracle, "nontrivial": nontrivial,
+    return [rich_suite, {"name": "reports", "cases": cases, "impl": impl_formatters, "oracle": oracle, "nontrivial": nontrivial,
              "histogram": lambda cs, os_: rc.histogram([c["prog"] for c in cs], os_),
              "shrink": lambda c: (dict(c, prog=q) for q in rc.shrink_program(c["prog"])),
              "bound": "%d seeded random runs with 7 formatters active" % n,
